@@ -376,7 +376,7 @@ def partition_obligations(ctx: Ctx) -> None:
             # (the complementary path, on which a dict argument is skipped, appends nothing)
             el = [r.__dict__.get("element") for r in l.run.loops if iter_base(r.iter_value) is args]
             okc = okc and bool(el) and (bool(cs) or all(isinstance(e, SObj) and e.kinds <= DICT_KINDS for e in el))
-        ctx.check(okc, "C15.consolidate", "second result is the non-dict arguments, filtered by the same predicate as Tag.__init__", w2,
+        ctx.check(okc, "C15.children", "second result is the non-dict arguments, filtered by the same predicate as Tag.__init__", w2,
                   f"children result {short(c)}", f"the children returned are {short(c)}: not exactly the arguments Tag() does not treat as attribute dicts")
 
 
